@@ -1254,6 +1254,22 @@ impl<'v> World<'v> {
                 self.last_connect_failed = false;
                 self.note_outcome(("connect", ev == ConnectEvent::Reconnected));
                 self.check_connect_result(id, Ok(ev), draining, 0);
+                if ev == ConnectEvent::Connected {
+                    // a fresh broker session has nothing in flight: its whole window must be available
+                    // (read back through the hook; the window itself is min(Receive Maximum, 8))
+                    let quota = conn.session().verif_runtime().send_quota as u32;
+                    let mut sh = self.sh.borrow_mut();
+                    let want = sh.oracle.conns[id].receive_max.min(8);
+                    if quota != want {
+                        let d = format!(
+                            "connect() reports a fresh session (nothing in flight) but only {} of {} send-window slots are available on connection {}",
+                            quota, want, id
+                        );
+                        sh.oracle.flag("C12", "R5-fresh-session-window-short", "connect", d.clone());
+                        sh.oracle.flag("C06", "M4-fresh-session-window-wrong", "connect", d.clone());
+                        sh.oracle.flag("C05", "S3-fresh-session-window-wrong", "connect", d);
+                    }
+                }
                 if let Some(pid) = self.cfg.start_pid {
                     if self.conns_done == 1 && !draining {
                         conn.verif_session_mut().verif_set_next_packet_id(pid);
@@ -1748,7 +1764,7 @@ impl<'v> World<'v> {
                         qos: 0,
                         retain: false,
                         props: vec![],
-                        filters: names.iter().enumerate().map(|(k, f)| (f.as_bytes().to_vec(), (k % 3) as u8)).collect(),
+                        filters: names.iter().enumerate().map(|(k, f)| (f.as_bytes().to_vec(), sub_option_byte(k))).collect(),
                     },
                 );
                 self.sh.borrow_mut().oracle.op_begin(op.name(), Some(seq));
@@ -1763,7 +1779,14 @@ impl<'v> World<'v> {
                                 1 => QoS::AtLeastOnce,
                                 _ => QoS::ExactlyOnce,
                             };
-                            TopicFilter::new(f).options(SubscriptionOptions::default().maximum_qos(q))
+                            // the second and third filter also carry the other subscription options
+                            let o = SubscriptionOptions::default().maximum_qos(q);
+                            let o = match k % 3 {
+                                1 => o.retain_behavior(minimq::RetainHandling::Never).ignore_local_messages(),
+                                2 => o.retain_behavior(minimq::RetainHandling::IfSubscriptionDoesNotExist).retain_as_published(),
+                                _ => o,
+                            };
+                            TopicFilter::new(f).options(o)
                         })
                         .collect();
                     self.drive(conn.subscribe(&filters, &[]), Some(id), true)
@@ -2677,5 +2700,18 @@ pub fn shape(i: u8) -> (&'static str, Vec<Property<'static>>, Vec<mr::Prop>) {
             ],
         ),
         _ => (LONG_TOPIC, vec![], vec![]),
+    }
+}
+
+
+/// Subscription Options byte of the k-th filter of a multi-filter SUBSCRIBE made by the harness:
+/// maximum QoS k % 3; the second filter: Retain Handling 2 and No Local; the third: Retain Handling 1 and
+/// Retain As Published.
+pub fn sub_option_byte(k: usize) -> u8 {
+    let q = (k % 3) as u8;
+    match k % 3 {
+        1 => q | (1 << 2) | (2 << 4),
+        2 => q | (1 << 3) | (1 << 4),
+        _ => q,
     }
 }
